@@ -50,6 +50,8 @@ EXPLANATION = (
     "callback; truncations), error wrapping for every exception class a field can raise (also below nested envelopes and sequence "
     "items), the value domain of buffers (bytes / bytearray / memoryview / integer equal to the declared length / other integers / "
     "bool / float / str / None for a Buf at top level, flexible, nested and in a sequence item: only octet strings are ever encoded), "
+    "decoded buffer values as octet strings of their own (bytes / bytearray witnesses, the bytearray overwritten afterwards) and "
+    "length callbacks that search the remaining octets with bytes methods, "
     "repeated decodes of one Sequence/envelope (result ownership), message sequences through ONE definition object (eight "
     "definitions with callback-length spares / buffers / nested envelopes / sequences and optional fields, 4..7 messages each whose "
     "variable parts differ, encoded, decoded and re-encoded in order, in reverse and interleaved; single field objects used again and "
